@@ -352,7 +352,10 @@ def gen_case(rng):
     r = rng.random()
     cache = gen_cache(rng)
     tag = 'raw'
-    if r < 0.25:
+    if r < 0.07:
+        tag = 'cutoff'
+        scripts, control = auth.cutoff_list(rng)
+    elif r < 0.25:
         scripts = [auth.raw_script(rng) for _ in range(rng.randrange(1, 5))]
     elif r < 0.8:
         tag = 'pair'
@@ -367,7 +370,7 @@ def gen_case(rng):
         cache = {**cache, **fields}
         cache.pop('timestamp', None)
         tag = 'builder:' + k
-    big = tag.startswith('builder')
+    big = tag.startswith('builder') or tag == 'cutoff'
     case = {
         'scripts': scripts, 'cache': cache, 'tag': tag,
         'as_objects': rng.getrandbits(5) if rng.random() < 0.25 else 0,
@@ -378,6 +381,8 @@ def gen_case(rng):
         'limit': 128 if big and rng.random() < 0.7
         else rng.choice(LIMITS['limit']),
     }
+    if tag == 'cutoff':
+        case['control'] = control
     return case
 
 
@@ -402,6 +407,11 @@ def judge_traced(ctx, case, verdict, exc):
     """instrumented replay of the real call and of the oracle (tracer is
     installed by the caller)."""
     n = len(case['scripts'])
+    if case.get('control') is not None:
+        # the same list without the cut-off instruction: it authorizes, so
+        # stepping over the cut instruction would show
+        if real(dict(case, scripts=case['control'], as_objects=0))[0] is True:
+            ctx.count('cutoff_control_true')
     reset_trace()
     mon = instr.Monitor()
     with instr.injected(mon):
@@ -552,6 +562,8 @@ def finalize(agg, tier):
     c = agg['counters']
     if not c.get('monitor.dispatch_events'):
         out.append('dispatch tracer recorded no event')
+    if c.get('cutoff_control_true', 0) < 500:
+        out.append('fewer than 500 cut-off cases whose control list authorizes')
     if not c.get('verdict_true'):
         out.append('no case with verdict True was generated')
     return out
